@@ -502,6 +502,42 @@ def gen_case(rng, max_procs=16, flavors=None, user_tags=None):
     return {"procs": procs[:max_procs]}
 
 
+def directed_case(rng):
+    """a version that carries several tags (global, or the user's own) is undeclared while another version of the
+    product stays, and is declared again; then read by the same user (his cache was written through all along) and
+    by the other one (who rebuilds).  What a write-through forgets or keeps by mistake shows here."""
+    n = rng.choice(NAMES)
+    v1, v2 = rng.sample(VERSIONS, 2)
+    f = rng.choice(["generic", "generic", "Linux64"])
+    u = rng.choice(USERS)
+    s = rng.choice([None, "s1", "s2"])
+    base = {"f": f, "s": s, "F": False, "N": False}
+    t1, t2 = rng.sample(TAGS, 2)
+    ops = [dict(base, k="D", n=n, v=v1, d="A", t=t1, tb=None)]
+    if rng.random() < 0.5:
+        ops.append(dict(base, k="A", t=t2, n=n, v=v1))
+    else:
+        ops += [dict(base, k=rng.choice(["UA", "A"]), t=(UTAGS[u][0]), n=n, v=v1), dict(base, k="UA", t=UTAGS[u][1], n=n, v=v1)]
+        ops = [o if o["k"] != "A" else dict(o, t=t2) for o in ops]
+    ops.append(dict(base, k="D", n=n, v=v2, d="A", t=None, tb=None))
+    ops.append(dict(base, k="X", n=n, v=v1))
+    if rng.random() < 0.3:
+        ops.append({"k": "DC", "loc": rng.choice([u, "db"]), "s": rng.choice(STACKS), "fl": f})
+    ops.append(dict(base, k="D", n=n, v=v1, d=rng.choice(["A", "B"]), t=rng.choice([None, t1]), tb=None))
+    procs, cur = [], []
+    for o in ops:
+        cur.append(o)
+        if rng.random() < 0.6:
+            procs.append({"u": u, "f": f, "ops": cur, "q": False, "crash": None})
+            cur = []
+    if cur:
+        procs.append({"u": u, "f": f, "ops": cur, "q": False, "crash": None})
+    other = [x for x in USERS if x != u][0]
+    procs.append({"u": u, "f": f, "ops": [], "q": True, "crash": None})
+    procs.append({"u": other, "f": f, "ops": [], "q": True, "crash": None})
+    return {"procs": procs}
+
+
 # ------------------------------------------------------------------ model side
 
 def pop_line(o):
@@ -914,7 +950,8 @@ def configure(ctx):
                 "and the reader's user tags) x "
                 "flavor of the fall-back list with noCache=False and noCache=True, and findProducts against "
                 "Database.findProducts; after every process the modification times are rewritten to the model's "
-                "logical stamps; one evaluation = one operation or one load; a case is non-trivial when some record "
+                "logical stamps; 60 directed histories per run (a version carrying several global or user tags is "
+                "undeclared while another version stays, then declared again, and read by both users); one evaluation = one operation or one load; a case is non-trivial when some record "
                 "exists at some point; distinct = distinct encoded case")
     ctx.trusted_base = common.COMMON_TRUSTED + [
         "modelled, not verified: the decisions of the commands (Model/Db.v, tied to the code by C06) are taken on "
@@ -946,7 +983,8 @@ def run(ctx):
     try:
         process(ctx, evaluate(ctx, corpus_cases()))
         ncases = ctx.size(1000, 16000)
-        cases = [gen_case(ctx.rng, max_procs=ctx.rng.choice([6, 10, 16, 16])) for _ in range(ncases)]
+        cases = [directed_case(ctx.rng) for _ in range(ctx.size(60, 600))]
+        cases += [gen_case(ctx.rng, max_procs=ctx.rng.choice([6, 10, 16, 16])) for _ in range(ncases)]
         for c in cases[:2]:
             ctx.sample(c)
         for k in range(0, len(cases), 200):
